@@ -123,6 +123,12 @@ def run(rep):
     byrec = {(r['pid'], tuple(r['dec'])): r for r in recs}
     for e in errs:
         p = progs[e['pid'] - 1]
+        import re as _re
+        m = _re.search(r"no binding for nonlocal '(\w+)'", e['error'])
+        if m and m.group(1) in p.get('hnames', []):
+            rep.violation('c01:conversion-error:no-binding-for-nonlocal:except-as-name-reused', 'conversion failed: ' + e['error'],
+                          dict(source=mp.render(p)[0], option_set=e['opt'], error=e['error']))
+            continue
         rep.violation('c01:conversion-error:%s' % e['error'].split(':')[0], 'conversion failed: ' + e['error'],
                       dict(source=mp.render(p)[0], option_set=e['opt'], error=e['error']))
     for d in div:
